@@ -167,7 +167,24 @@ func (e *Engine) findPackage(from *types.Package, name string) *types.Package {
 // LoadContracts reads contracts_verif.go from every loaded package dir of the module, with a
 // fallback mirror directory, plus trusted contract files.
 func (e *Engine) LoadContracts(mirrorDir, trustedDir, specDir string) error {
-	for path, p := range e.byPath {
+	for _, dir := range []string{trustedDir, specDir} {
+		ents, _ := os.ReadDir(dir)
+		for _, en := range ents {
+			if en.IsDir() || !(strings.HasSuffix(en.Name(), ".ct") || strings.HasSuffix(en.Name(), ".spec")) {
+				continue
+			}
+			if err := e.cs.ParseContractFile(filepath.Join(dir, en.Name()), ""); err != nil {
+				return err
+			}
+		}
+	}
+	var paths []string
+	for path := range e.byPath {
+		paths = append(paths, path)
+	}
+	sort.Strings(paths)
+	for _, path := range paths {
+		p := e.byPath[path]
 		if !strings.HasPrefix(path, ModulePath) {
 			continue
 		}
@@ -184,17 +201,6 @@ func (e *Engine) LoadContracts(mirrorDir, trustedDir, specDir string) error {
 		_ = p
 		if err := e.cs.ParseContractFile(f, path); err != nil {
 			return err
-		}
-	}
-	for _, dir := range []string{trustedDir, specDir} {
-		ents, _ := os.ReadDir(dir)
-		for _, en := range ents {
-			if en.IsDir() || !(strings.HasSuffix(en.Name(), ".ct") || strings.HasSuffix(en.Name(), ".spec")) {
-				continue
-			}
-			if err := e.cs.ParseContractFile(filepath.Join(dir, en.Name()), ""); err != nil {
-				return err
-			}
 		}
 	}
 	return nil
@@ -257,7 +263,19 @@ func globKey(g *ssa.Global) string { return g.Pkg.Pkg.Path() + "::" + g.Name() }
 func globalElemType(g *ssa.Global) types.Type { return g.Type().(*types.Pointer).Elem() }
 
 // globalRef: aggregate globals live at a fixed symbolic reference.
-func globalRef(g *ssa.Global) *Term { return Var("globref:"+globKey(g), RefSort) }
+// Each aggregate global gets a distinct concrete address (so that reads of one table are
+// syntactically independent of writes to another).
+var globRefIDs = map[string]uint64{}
+
+func globalRef(g *ssa.Global) *Term {
+	k := globKey(g)
+	id, ok := globRefIDs[k]
+	if !ok {
+		id = uint64(len(globRefIDs) + 1)
+		globRefIDs[k] = id
+	}
+	return BVU(0x6000000000000000+id<<24, 64)
+}
 
 // loadGlobal reads a package-level variable in state st.
 func (e *Engine) loadGlobal(st *State, g *ssa.Global) Value {
@@ -381,6 +399,20 @@ func (e *Engine) initState(pkg *ssa.Package) *State {
 	fn := pkg.Func("init")
 	if fn == nil || len(fn.Blocks) == 0 {
 		return st
+	}
+	// package-level aggregates start zeroed
+	var names []string
+	for n := range pkg.Members {
+		names = append(names, n)
+	}
+	sort.Strings(names)
+	for _, n := range names {
+		if g, ok := pkg.Members[n].(*ssa.Global); ok && isAggregate(globalElemType(g)) {
+			func() {
+				defer func() { recover() }()
+				st.StoreObject(globalElemType(g), globalRef(g), zeroOf(globalElemType(g)))
+			}()
+		}
 	}
 	saveFn, saveCt, saveInit := e.curFn, e.curCt, e.inInit
 	e.inInit = true
